@@ -22,7 +22,8 @@ import (
 //
 // Observation: one line per consumer call that returned (read=n;bytes=hex;err=class | close=ok),
 // then asm=done|stuck|panic;cons=done|stuck|panic;ret=<Reassembled calls that returned>.
-// "stuck" = not finished when the watchdog fired (200 ms, confirmed by a second run with 600 ms).
+// "stuck" = not finished and no call returned on either side during a whole watchdog period
+// (200 ms, confirmed by a second, fresh run with 600 ms).
 type c20 struct{}
 
 func init() { register("C20", c20{}) }
@@ -96,6 +97,7 @@ type c20Run struct {
 	reads  []c20Read
 	oracle []string
 	ret    int32
+	prog   int64 // calls returned on either side (watchdog: no progress = stuck)
 	asm    string
 	cons   string
 }
@@ -143,6 +145,7 @@ func c20Attempt(p c20Case, wd time.Duration) *c20Run {
 				break
 			}
 			atomic.AddInt32(&run.ret, 1)
+			atomic.AddInt64(&run.prog, 1)
 		}
 		if status == "done" && !call(func() { rs.ReassemblyComplete() }) {
 			status = "panic"
@@ -183,6 +186,7 @@ func c20Attempt(p c20Case, wd time.Duration) *c20Run {
 			default:
 				cls = "other"
 			}
+			atomic.AddInt64(&run.prog, 1)
 			run.mu.Lock()
 			defer run.mu.Unlock()
 			if k < 0 || k > n {
@@ -241,6 +245,7 @@ func c20Attempt(p c20Case, wd time.Duration) *c20Run {
 					break prog
 				}
 				closedOnce = true
+				atomic.AddInt64(&run.prog, 1)
 				run.mu.Lock()
 				if err == nil {
 					run.lines = append(run.lines, "close=ok")
@@ -254,8 +259,10 @@ func c20Attempt(p c20Case, wd time.Duration) *c20Run {
 		run.cons = status
 		run.mu.Unlock()
 	}()
-	timer := time.NewTimer(wd)
-	defer timer.Stop()
+	// watchdog: "stuck" = neither side finished and no call returned on either side for wd
+	tick := time.NewTicker(wd)
+	defer tick.Stop()
+	last := atomic.LoadInt64(&run.prog)
 	a, c := asmDone, consDone
 	for a != nil || c != nil {
 		select {
@@ -263,8 +270,12 @@ func c20Attempt(p c20Case, wd time.Duration) *c20Run {
 			a = nil
 		case <-c:
 			c = nil
-		case <-timer.C:
-			a, c = nil, nil
+		case <-tick.C:
+			if now := atomic.LoadInt64(&run.prog); now != last {
+				last = now
+			} else {
+				a, c = nil, nil
+			}
 		}
 	}
 	// snapshot (goroutines that are stuck stay blocked; they own nothing we read unlocked)
